@@ -190,6 +190,15 @@ def cases(tier):
     subs = ("!transition-variables\n    x, y, z\n!transition-shocks\n    e\n!parameters\n    a, b\n!substitutions\n    s := a*x[-1] + b;\n    r = a*y[-1];\n"
             "!transition-equations\n    x = $s$ + e;\n    y = $r$ + b + e;\n    z = x[-1] - y[+1];\n")
     B2.append(("substitutions", subs, loop, None))
+    # substitutions together with !! steady-state variants (variant without and with a substitution inside)
+    loop_st = Spec(("x", "y", "z"), ("e",), ("a", "b"), ("x = a*x[-1] + b + e", "y = a*y[-1] + b + e", "z = x[-1] - y[+1]"),
+                   steady={0: "x = b/(1 - a)", 1: "y = a*y[-1] + b"})
+    subs_st = subs.replace("x = $s$ + e;", "x = $s$ + e !! x = b/(1 - a);").replace("y = $r$ + b + e;", "y = $r$ + b + e !! y = $r$ + b;")
+    B2.append(("substitutions_with_steady_variants", subs_st, loop_st, None))
+    loop_st2 = Spec(("x", "y", "z"), ("e",), ("a", "b"), ("x = a*x[-1] + b + e", "y = a*y[-1] + b + e", "z = x[-1] - y[+1]"), steady={2: "z = x - y"})
+    B2.append(("unused_substitution_with_steady_variant", subs.replace("z = x[-1] - y[+1];", "z = x[-1] - y[+1] !! z = x - y;"), loop_st2, None))
+    B2.append(("for_loop_with_steady_variant", loop_src.replace("?v = a*?v[-1] + b + e;", "?v = a*?v[-1] + b + e !! ?v = b/(1 - a);"),
+               Spec(("x", "y", "z"), ("e",), ("a", "b"), ("x = a*x[-1] + b + e", "y = a*y[-1] + b + e", "z = x[-1] - y[+1]"), steady={0: "x = b/(1 - a)", 1: "y = b/(1 - a)"}), None))
     lst = ("!transition-variables\n    x`lg, y`lg, z\n!transition-shocks\n    e\n!parameters\n    a, b\n!transition-equations\n"
            "    x = a*x[-1] + b + e;\n    y = a*y[-1] + b + e;\n    z = x[-1] - y[+1];\n!log-variables\n    !list(`lg)\n")
     loopl = Spec(("x", "y", "z"), ("e",), ("a", "b"), ("x = a*x[-1] + b + e", "y = a*y[-1] + b + e", "z = x[-1] - y[+1]"), logvars=("x", "y"))
